@@ -114,7 +114,12 @@ def gen_stmt(rng, current):
     if r < 0.93:
         t, _ = user_table(rng, True)
         sql = rng.choice([f"INSERT INTO {t} VALUES (1)", f"UPDATE {t} SET a = 1", f"DELETE FROM {t} WHERE a = 1", f"CREATE TABLE {t}x (a INT)", f"DROP TABLE {t}x",
-                          f"ALTER TABLE {t} ADD b INT", f"TRUNCATE TABLE {t}", "CALL p()", f"INSERT INTO {t} SELECT a FROM db.u"])
+                          f"ALTER TABLE {t} ADD b INT", f"TRUNCATE TABLE {t}", "CALL p()", f"INSERT INTO {t} SELECT a FROM db.u",
+                          # data definition / manipulation whose embedded query reads catalog tables only: still the application's
+                          f"INSERT INTO {t} SELECT table_name FROM information_schema.tables",
+                          f"CREATE TABLE {t}snap AS SELECT * FROM information_schema.columns",
+                          f"CREATE VIEW {t}v AS SELECT schema_name FROM information_schema.schemata",
+                          f"INSERT INTO {t} (a) SELECT 1 FROM mysql.user"])
         return sql, "(mk_stmt KOther [])", "app", current
     t, _ = user_table(rng, True)
     return rng.choice([f"EXPLAIN SELECT a FROM {t}", f"DESCRIBE SELECT a FROM {t}"]), "(mk_stmt KDescribeSelect [])", "app", current
